@@ -2,7 +2,7 @@
 """Prints the markdown table of seeded changes (seeded/*/meta.json) for DESIGN.md section 9.7."""
 import json, glob, os, re
 rows = []
-for d in sorted(glob.glob(os.path.join(os.path.dirname(os.path.dirname(os.path.abspath(__file__))), "seeded", "C*-m*"))):
+for d in sorted(glob.glob(os.path.join(os.path.dirname(os.path.dirname(os.path.abspath(__file__))), "seeded", "C*-[ms]*"))):
     m = json.load(open(d + "/meta.json"))
     notes = m.get("needs_to_manifest", "")
     title = ""
